@@ -291,6 +291,11 @@ def refine_cases(draw):
             comps.append([draw(st.floats(3.0, 6.5)) * j * draw(st.sampled_from([1, -1])),
                           draw(st.floats(-3, 3)), draw(st.floats(15, 120)),
                           draw(st.floats(1.2, 2.5))])
+        # narrow specks: islands smaller than npixels at the upper threshold
+        # levels (markers with label gaps inside one parent)
+        for _ in range(draw(st.sampled_from([0, 0, 1, 2]))):
+            comps.append([draw(st.floats(-6, 6)), draw(st.floats(-6, 6)),
+                          draw(st.floats(20, 90)), draw(st.floats(0.45, 0.8))])
         groups.append({'x': draw(st.floats(6, nx - 7)),
                        'y': draw(st.floats(6, ny - 7)),
                        'q': draw(st.floats(0.6, 1.0)),
@@ -333,5 +338,5 @@ SUBCHECKS = [
     SubCheck('refine', refine_cases(), check_refine,
              'non-trivial = >=1 parent actually split and a non-identity '
              'completion order over >=2 per-source tasks',
-             quick=(16, 150), thorough=(16, 2500), budget_quick=80),
+             quick=(16, 500), thorough=(16, 2500), budget_quick=80),
 ]
